@@ -473,3 +473,32 @@ def assume_collection_calls(table):
                 return switch_targets_for(t, truth if pol else (not truth))
         return None
     return a
+
+
+def loop_continues_after(prog, inst_id, site_bb):
+    """The call at site_bb sits in a `for` loop; after it, control must come back to *that* loop's iterator `next`
+    (no `break` / early `return` that skips the remaining elements).  Returns (ok, detail)."""
+    body = prog.body_of(inst_id)
+    nexts = [b for (b, t, c) in prog.sites(inst_id) if callee_path(t) == "std::iter::Iterator::next"]
+    dom = body.dominators()
+    inner = [n for n in nexts if n in dom.get(site_bb, ())]
+    if not inner:
+        return False, "site is not inside a loop"
+    # innermost = the dominating `next` closest to the site (dominated by all other dominating nexts)
+    loop_next = max(inner, key=lambda n: len(dom[n]))
+    seen = set()
+    dq = list(body.succs(site_bb))
+    while dq:
+        x = dq.pop()
+        if x in seen:
+            continue
+        seen.add(x)
+        if x == loop_next:
+            continue
+        t = body.term(x)
+        if x in nexts:
+            return False, "leaves the loop for another iterator (break) at bb%d" % x
+        if t["k"] == "return":
+            return False, "returns from inside the loop at bb%d" % x
+        dq.extend(body.succs(x))
+    return True, ""
